@@ -39,7 +39,7 @@ func sampleOnce(kind string, v interface{}, nontrivial bool) {
 	}
 	// the driver shows six samples taken round-robin from the shards: even shards contribute
 	// codec and corpus cases, odd shards fresh-index cases first
-	if shard, n := vlib.Shard(); n > 1 && (shard%2 == 1) == strings.HasPrefix(kind, "codec") {
+	if shard, n := vlib.Shard(); n > 1 && (shard%2 == 1) != strings.HasPrefix(kind, "range-fresh") {
 		return
 	}
 	sampleMu.Lock()
